@@ -9,6 +9,7 @@ def dispatch (j : Json) : Json :=
   | "tools" => Ptera.Driver.Tools.handle j
   | "lex" | "ptree" | "parse" | "select0" => Ptera.Driver.Selector.handle j
   | "handlers" => Ptera.Driver.Handlers.handle j
+  | "tagmatch" => Ptera.Driver.Handlers.handleTag j
   | "ping" => Json.mkObj [("ok", "pong")]
   | _ => Json.mkObj [("err", "bad-op")]
 
